@@ -783,9 +783,17 @@ class SyncInterpreter(BaseInterpreter[TContext, TEvent]):
             "🔍 Checking 'done' status for ancestors of final state '%s'.",
             final_state.id,
         )
+        # 🌐 See BaseInterpreter._check_and_fire_on_done: a parallel state
+        #    completed by this same entry fires as well, even when a region
+        #    below it has already fired its own `onDone`.
+        fired = False
         while ancestor:
             # 🧐 Check if the ancestor has an `on_done` handler and is fully completed.
-            if ancestor.on_done and self._is_state_done(ancestor):
+            if (
+                ancestor.on_done
+                and (not fired or ancestor.type == "parallel")
+                and self._is_state_done(ancestor)
+            ):
                 done_event_type = f"done.state.{ancestor.id}"
                 logger.info(
                     "🥳 State '%s' is done! Queuing onDone event: '%s'",
@@ -801,9 +809,11 @@ class SyncInterpreter(BaseInterpreter[TContext, TEvent]):
                         src=ancestor.id,
                     )
                 )
-                return  # 🛑 Only fire the event for the nearest completed ancestor.
+                fired = True
 
             ancestor = ancestor.parent
+        if fired:
+            return
 
         # 🏁 A top-level final state completes the machine itself.
         if final_state.parent is self.machine or final_state.parent is None:
